@@ -526,14 +526,18 @@ func (cs *connState) handleRequest() bool {
 		return false
 	}
 
-	messageSize := atomic.LoadUint32(&cs.messageSize)
-	if messageSize == 0 {
+	// The limit is read when the message arrives: a Tversion handled while
+	// this goroutine was already waiting applies to the message after it.
+	messageSize := func() uint32 {
+		if ms := atomic.LoadUint32(&cs.messageSize); ms != 0 {
+			return ms
+		}
 		// Default or not yet negotiated.
-		messageSize = maximumLength
+		return maximumLength
 	}
 
 	// Receive a message.
-	tag, m, err := recv(cs.server.log, cs.t, messageSize, msgDotLRegistry.get)
+	tag, m, err := recvLimit(cs.server.log, cs.t, messageSize, msgDotLRegistry.get)
 	if errSocket, ok := err.(ConnError); ok {
 		if errSocket.error != io.EOF {
 			// Connection problem; stop serving.
